@@ -35,7 +35,7 @@ Fixpoint bad_idx {A} (f : A -> bool) (i : nat) (l : list A) : list nat :=
   match l with [] => [] | x :: r => if f x then bad_idx f (S i) r else i :: bad_idx f (S i) r end.
 """
 XML_NS = "http://www.w3.org/XML/1998/namespace"
-FLAG_NAMES = ["check", "check_attrs", "model_capacity_ok", "guard_seq", "guard_or", "order_safe", "rep_confined", "cm_wf"]
+FLAG_NAMES = ["check", "check_attrs", "model_capacity_ok", "guard_seq", "guard_or", "order_safe", "rep_confined", "cm_wf", "amp_default"]
 
 
 # ------------------------------------------------------------------ Coq evaluation of a file with several Evals
@@ -353,7 +353,8 @@ def run(ck: Check):
                  "bad_idx doc_infoset_unordered_ok 0 ALLDOCS", "bad_idx doc_revalid_ok 0 ALLDOCS",
                  "bad_idx doc_in_lang 0 ALLDOCS", "map doc_rejecting ALLDOCS",
                  "bad_idx (fun pd => negb (doc_has_mixed_ws pd)) 0 ALLDOCS",
-                 "bad_idx (fun pd => negb (doc_has_wild_tail pd)) 0 ALLDOCS"]
+                 "bad_idx (fun pd => negb (doc_has_wild_tail pd)) 0 ALLDOCS",
+                 "bad_idx (fun pd => negb (doc_has_amp_class pd)) 0 ALLDOCS"]
         t0 = time.time()
         out = coq_multi(f"s{si}", defs, evals, timeout=600)
         shard_times.append(round(time.time() - t0, 1))
@@ -365,8 +366,8 @@ def run(ck: Check):
 
     # ---------------- interpret
     KNOWN = {"seq": "dtd-seq-group-occurrence-dropped", "or": "dtd-choice-member-occurrence-overridden",
-             "ns": "dtd-namespace-children-unqualified", "any": "dtd-any-text-after-child",
-             "tail": "dtd-any-child-tail-captured",
+             "ns": "dtd-element-namespaces-lost", "any": "dtd-any-text-after-child",
+             "tail": "dtd-any-child-tail-captured", "amp": "dtd-attribute-default-ampersand-unexpanded",
              "ws": "mixed-whitespace-only-text-dropped"}
     stats = {"classes": 0, "classes_check_true": 0, "docs_ok": 0, "docs_parse_failed": 0, "witness_confirmed": 0,
              "witness_unconfirmed": 0, "order_claimed_docs": 0}
@@ -377,6 +378,8 @@ def run(ck: Check):
         """Narrow class of a rejection at a class with these Coq-computed flags, or None (= new violation)."""
         if code == 3:
             return KNOWN["any"] if not flags[0] else None
+        if code == 2:
+            return (KNOWN["ns"] if not gns else (KNOWN["amp"] if flags[8] else None)) if not flags[1] else None
         if code != 1:
             return None
         if flags[2]:
@@ -391,7 +394,7 @@ def run(ck: Check):
 
     for si, sh in enumerate(shards):
         (bad_parser, bad_mapper, flags, rejected, gns, bad_pa, bad_info, bad_unord, bad_reval, bad_lang, rejecting,
-         has_ws, has_wt) = results[si]
+         has_ws, has_wt, has_amp) = results[si]
         docmap = [(k, j) for k, run in enumerate(sh) for j in range(len(run["p"]["docs"]))]
         for k in bad_parser:
             ck.failure("corr-dtd-parser", "Model/Dtd.v parse_dtd disagrees with DtdParser.parse",
@@ -410,7 +413,7 @@ def run(ck: Check):
                     ck.failure("theorem-instance-dtd-capacity", f"guards hold but the mapper model loses capacity for {el['name']}",
                                replay_of(run, element=el["name"]))
                 if not fl[1]:
-                    ck.failure("attribute-binding-mismatch", f"attribute fields of {el['name']} do not re-materialise the declared defaults",
+                    ck.failure(KNOWN["ns"] if not gns[k] else (KNOWN["amp"] if fl[8] else "attribute-binding-mismatch"), f"attribute fields of {el['name']} do not re-materialise the declared defaults",
                                replay_of(run, element=el["name"], attrs=el["attrs"]))
                 if not fl[7]:
                     raise RuntimeError("C16 generator produced an ill-formed content model")
@@ -424,8 +427,8 @@ def run(ck: Check):
                     elif fl[2]:
                         ck.failure("capacity-lost-after-mapper", f"validator rejects the metadata of {el['name']} although the mapper kept capacity; no witness word",
                                    replay_of(run, element=el["name"]))
-        bad_pa, bad_info, bad_unord, bad_reval, bad_lang, has_ws, has_wt = map(
-            set, (bad_pa, bad_info, bad_unord, bad_reval, bad_lang, has_ws, has_wt))
+        bad_pa, bad_info, bad_unord, bad_reval, bad_lang, has_ws, has_wt, has_amp = map(
+            set, (bad_pa, bad_info, bad_unord, bad_reval, bad_lang, has_ws, has_wt, has_amp))
         for di, (k, j) in enumerate(docmap):
             run = sh[k]
             doc, dr = run["p"]["docs"][j], run["res"]["docs"][j]
@@ -451,14 +454,16 @@ def run(ck: Check):
                     ck.failure("corr-parse-abstract", "the real parser accepts a document the slot-assignment abstract rejects",
                                replay_of(run, doc=doc, rejecting=rejecting[di]))
                 if di in bad_unord:
-                    cls = KNOWN["tail"] if di in has_wt else (KNOWN["ws"] if di in has_ws else "infoset-mismatch")
+                    cls = KNOWN["ns"] if not gns[k] else (
+                        KNOWN["tail"] if di in has_wt else (KNOWN["ws"] if di in has_ws else (
+                            KNOWN["amp"] if di in has_amp else "infoset-mismatch")))
                     ck.failure(cls, "output does not have the same elements, attributes and values as the input (defaults applied)",
                                replay_of(run, doc=doc, out=dr["ok"]))
                 elif di in bad_info:
                     ck.failure("order-not-preserved", "element order changed although the side condition for order holds",
                                replay_of(run, doc=doc, out=dr["ok"]))
                 if di in bad_reval:
-                    ck.failure("output-not-dtd-valid", "serialized output is not DTD-valid although order is claimed for all its elements",
+                    ck.failure(KNOWN["ns"] if not gns[k] else "output-not-dtd-valid", "serialized output is not DTD-valid although order is claimed for all its elements",
                                replay_of(run, doc=doc, out=dr["ok"]))
 
     # ---------------- witnesses of failed validator runs, replayed through the real parser
